@@ -188,6 +188,8 @@ class ProgGen:
         self.steps: list[dict] = []
         self.next_t = 0
         self.next_d = 0
+        self.hist: dict[int, list] = {}      # diagram -> construction ops [["n", t] | ["e", s, t]]
+        self.variant: dict[int, int] = {}    # tensor slot -> slot of a same-shape, same-type-count, other-layout twin
 
     def new_t(self) -> int:
         self.next_t += 1
@@ -219,6 +221,31 @@ class ProgGen:
             s = self.new_t()
             self.recipes.append({"slot": s, "k": "alias", "a": [of, "copy"]})
             self.tensors[s] = self.tensors[of]
+
+    def variant_of(self, t: int) -> int:
+        """A pool tensor with the same shape and the same NUMBER of covariant/contravariant axes as t but (if the
+        rank allows) at other positions and with other entries: near-collisions for anything keyed by rank/type."""
+        if t in self.variant:
+            return self.variant[t]
+        mt = self.tensors[t]
+        r = mt.arr.ndim
+        rng = self.rng
+        ncov = len(mt.cov)
+        cov = list(mt.cov)
+        for _ in range(8):
+            cand = sorted(rng.sample(range(r), ncov)) if r else []
+            if cand != list(mt.cov):
+                cov = cand
+                break
+        con = [i for i in range(r) if i not in cov]
+        arr = np.array(_nested(rng, list(mt.arr.shape)), dtype=np.int64) if r else np.array(rng.randint(-3, 3))
+        s = self.new_t()
+        self.recipes.append({"slot": s, "k": "tensor", "a": [arr.tolist()], "kw": {"cov": cov if cov else False,
+                                                                                 "dt": "i"}})
+        self.tensors[s] = MTensor(arr, cov, con)
+        self.variant[t] = s
+        self.variant[s] = t
+        return s
 
     # -- helpers
     def legal_edges(self, d: MDiagram, cands: list[int]):
@@ -299,6 +326,7 @@ class ProgGen:
             if not err and d.size(self.tensors) <= MAX_ELEMS:
                 self.diagrams[new] = d
                 self.owner[new] = client
+                self.hist[new] = [["e", a, b] for a, b in edges]
             else:
                 st["doomed"] = True
             return st
@@ -316,7 +344,35 @@ class ProgGen:
             self.next_d += 1
             self.diagrams[new] = d.copy()
             self.owner[new] = client
+            self.hist[new] = list(self.hist.get(d_id, []))
             return {"i": i, "c": client, "op": "copy", "d": d_id, "to": new}
+        if r < 0.34 and self.hist.get(d_id) and d.nodes:
+            # twin diagram: same construction history on same-shaped tensors with another index layout
+            mp = {}
+            ops = []
+            for o in self.hist[d_id]:
+                for t in o[1:]:
+                    if t not in mp:
+                        mp[t] = self.variant_of(t) if self.tensors[t].arr.ndim <= 4 and not self.tensors[t].int8 else t
+                ops.append([o[0]] + [mp[t] for t in o[1:]])
+            twin = MDiagram()
+            ok = True
+            try:
+                for o in ops:
+                    if o[0] == "n":
+                        twin.add_node(o[1], self.tensors)
+                    else:
+                        twin.add_edge(o[1], o[2], self.tensors)
+            except ModelError:
+                ok = False
+            new = self.next_d
+            self.next_d += 1
+            if ok and twin.size(self.tensors) <= MAX_ELEMS:
+                self.diagrams[new] = twin
+                self.owner[new] = client
+                self.hist[new] = ops
+                return {"i": i, "c": client, "op": "build", "d": new, "ops": ops}
+            return {"i": i, "c": client, "op": "build", "d": new, "ops": ops, "doomed": True}
         if r < 0.38:
             cands = [t for t in self.tensor_cands(8) if t not in d.nodes]
             if cands:
@@ -325,6 +381,7 @@ class ProgGen:
                 dd.add_node(t, self.tensors)
                 if dd.size(self.tensors) <= MAX_ELEMS and sum(self.tensors[x].arr.ndim for x in dd.nodes) <= 12:
                     d.add_node(t, self.tensors)
+                    self.hist.setdefault(d_id, []).append(["n", t])
                     return {"i": i, "c": client, "op": "add_node", "d": d_id, "t": t}
         if r < 0.46:
             a, b = rng.choice(self.tensor_cands(8)), rng.choice(self.tensor_cands(8))
@@ -360,6 +417,7 @@ class ProgGen:
         st = {"i": i, "c": client, "op": "add_edge", "d": d_id, "s": s, "t": t}
         try:
             d.add_edge(s, t, self.tensors)
+            self.hist.setdefault(d_id, []).append(["e", s, t])
             if d.size(self.tensors) > MAX_ELEMS or sum(self.tensors[x].arr.ndim for x in d.nodes) > 12:
                 del self.diagrams[d_id]   # too big for the exact model: never evaluated again
                 st["retire"] = True
@@ -404,8 +462,9 @@ def model_tensors_from_recipes(recipes) -> dict[int, MTensor]:
     return ts
 
 
-def expectations(case: dict) -> dict[int, tuple]:
-    """step index -> ('ok', payload) | ('error',) | ('skip',) predicted by the model in program order."""
+def expectations(case: dict, state: dict | None = None) -> dict[int, tuple]:
+    """step index -> ('ok', payload) | ('error',) | ('skip',) predicted by the model in program order.
+    If `state` is given it receives the model's final tensors and diagrams."""
     ts = model_tensors_from_recipes(case["recipes"])
     ds: dict[int, MDiagram] = {}
     exp: dict[int, tuple] = {}
@@ -444,6 +503,22 @@ def expectations(case: dict) -> dict[int, tuple]:
                 try:
                     for s, t in st["edges"]:
                         d.add_edge(s, t, ts)
+                    if not st.get("doomed"):
+                        ds[st["d"]] = d
+                    exp[i] = ("ok", None)
+                except ModelError:
+                    exp[i] = ("error",)
+            elif op == "build":
+                if any(t not in ts for o in st["ops"] for t in o[1:]):
+                    exp[i] = ("skip",)
+                    continue
+                d = MDiagram()
+                try:
+                    for o in st["ops"]:
+                        if o[0] == "n":
+                            d.add_node(o[1], ts)
+                        else:
+                            d.add_edge(o[1], o[2], ts)
                     if not st.get("doomed"):
                         ds[st["d"]] = d
                     exp[i] = ("ok", None)
@@ -525,6 +600,8 @@ def expectations(case: dict) -> dict[int, tuple]:
                 exp[i] = ("skip",)
         except MemoryError:
             exp[i] = ("skip",)
+    if state is not None:
+        state["ts"], state["ds"] = ts, ds
     return exp
 
 
@@ -576,8 +653,9 @@ def compare_value(step, got, exp_payload, flags=()) -> dict | None:
 class Exec:
     """Executes a C05 program against geometer with the model's expectations in lock-step."""
 
-    def __init__(self, case, exp, plan, stats):
+    def __init__(self, case, exp, plan, stats, model_state=None):
         self.case, self.exp, self.plan, self.stats = case, exp, plan or {}, stats
+        self.model_state = model_state or {}
         self.world = W.World()
         W.canonical_start(case["cfg"].get("warm", []))
         self.build_errors = self.world.build(case["recipes"])
@@ -636,7 +714,9 @@ class Exec:
         need_t = [st[k] for k in ("t", "s", "a", "b") if k in st and op != "eps"]
         if op == "new":
             need_t = [x for ed in st["edges"] for x in ed]
-        if any(x not in T for x in need_t) or ("d" in st and op != "new" and st["d"] not in D):
+        if op == "build":
+            need_t = [x for o in st["ops"] for x in o[1:]]
+        if any(x not in T for x in need_t) or ("d" in st and op not in ("new", "build") and st["d"] not in D):
             h["status"] = "skipped"
             if op in ("add_node", "add_edge", "self_edge_new"):
                 D.pop(st["d"], None)  # model and library would diverge: retire the diagram
@@ -654,6 +734,15 @@ class Exec:
             fn = lambda: T[st["t"]].copy()  # noqa: E731
         elif op == "new":
             fn = lambda: TensorDiagram(*[(T[s], T[t]) for s, t in st["edges"]])  # noqa: E731
+        elif op == "build":
+            def fn():
+                d = TensorDiagram()
+                for o in st["ops"]:
+                    if o[0] == "n":
+                        d.add_node(T[o[1]])
+                    else:
+                        d.add_edge(T[o[1]], T[o[2]])
+                return d
         elif op == "add_node":
             mut_target = st["d"]
             fn = lambda: D[st["d"]].add_node(T[st["t"]])  # noqa: E731
@@ -721,7 +810,7 @@ class Exec:
                                 f"model predicts success, library raised {type(r).__name__}: {r}")
         if op == "tcopy":
             self.world.put(st["to"], r, f"step{i}:tcopy")
-        elif op == "new":
+        elif op in ("new", "build"):
             if not st.get("doomed"):
                 D[st["d"]] = r
         elif op == "copy":
@@ -742,8 +831,9 @@ class Exec:
 
 def run_case(case: dict, plan: dict | None, stats: dict, trace_ws=False) -> tuple[dict | None, dict, str | None]:
     """Executes the case in the mode given by the plan. Returns (violation, history by step, corruption note)."""
-    exp = expectations(case)
-    ex = Exec(case, exp, plan, stats)
+    mstate: dict = {}
+    exp = expectations(case, mstate)
+    ex = Exec(case, exp, plan, stats, mstate)
     removed = set(case.get("removed", []))
     steps = [s for s in case["steps"] if s["i"] not in removed]
     mode = (plan or {}).get("exec", "seq")
@@ -827,40 +917,9 @@ def final_checks(ex: Exec, steps) -> dict | None:
     """After the last fault: every surviving diagram still evaluates to the model's value; epsilon/delta are right."""
     ctx = seam.Ctx()
     seam.set_ctx(ctx)
-    # model state at the end of the program
-    ts = model_tensors_from_recipes(ex.case["recipes"])
+    # model state at the end of the program (computed together with the expectations)
+    ts, ds = ex.model_state["ts"], ex.model_state["ds"]
     last = {"i": len(ex.case["steps"]), "op": "final"}
-    ds: dict[int, MDiagram] = {}
-    for st in steps:
-        i, op, e = st["i"], st["op"], ex.exp.get(st["i"], ("skip",))
-        if e[0] != "ok":
-            if op in ("add_edge", "self_edge_new"):
-                ds.pop(st.get("d"), None)
-            continue
-        if op in ("eps", "delta", "calc") and "to" in st:
-            a = e[1]
-            if op == "calc":
-                ts[st["to"]] = MTensor(a[0], range(a[1]), range(a[1], a[1] + a[2]), a[4])
-            else:
-                ts[st["to"]] = MTensor(a[0], range(a[1]), range(a[1], a[1] + a[2]), True)
-        elif op == "tcopy":
-            ts[st["to"]] = ts[st["t"]]
-        elif op == "new":
-            d = MDiagram()
-            for s, t in st["edges"]:
-                d.add_edge(s, t, ts)
-            if not st.get("doomed"):
-                ds[st["d"]] = d
-        elif op == "add_node":
-            ds[st["d"]].add_node(st["t"], ts)
-        elif op == "add_edge":
-            ds[st["d"]].add_edge(st["s"], st["t"], ts)
-            if st.get("retire"):
-                ds.pop(st["d"])
-        elif op == "self_edge_new":
-            ds.pop(st["d"], None)
-        elif op == "copy":
-            ds[st["to"]] = ds[st["d"]].copy()
     for d_id in sorted(ex.D):
         if d_id not in ds or not ds[d_id].nodes:
             continue
